@@ -114,10 +114,20 @@ func injectGet(dp app.DependencyProvider, name string, optional bool) (*instance
 		o := &injC{}
 		err := dp.InjectTo(o)
 		return o.F, err
-	default:
+	case name == "C":
 		o := &injCopt{}
 		err := dp.InjectTo(o)
 		return o.F, err
+	default:
+		// any other name (the long chains): a one-field struct built by reflection
+		tag := name
+		if optional {
+			tag = "?" + tag
+		}
+		v := reflect.New(reflect.StructOf([]reflect.StructField{{Name: "F", Type: reflect.TypeOf((*instance)(nil)), Tag: reflect.StructTag(fmt.Sprintf(`dep:"%s"`, tag))}}))
+		err := dp.InjectTo(v.Interface())
+		ins, _ := v.Elem().Field(0).Interface().(*instance)
+		return ins, err
 	}
 }
 
